@@ -259,6 +259,10 @@ class Ctx:
             ae = z3.If(exact >= 0, exact, -exact)
             fl = z3.ToReal(z3.ToInt(exact))
             ax = [z3.And(r - exact <= u * ae, exact - r <= u * ae), z3.And(fl <= r, r <= fl + 1), z3.Implies(exact == fl, r == exact)]
+            if op == "div" and self._dyk(ta) == 0 and self._dyk(tb) == 0:
+                # quotient of two integers 0 <= a < 2**53, b > 0: the next integer above a/b is at least 1/b away,
+                # the rounding error is at most 2**-53 * a/b < 1/b, so rounding cannot reach it: floor(fl(a/b)) = floor(a/b)
+                ax.append(z3.Implies(z3.And(sym._real(ta) >= 0, sym._real(tb) > 0), z3.ToInt(r) == z3.ToInt(exact)))
             if op in ("add", "sub"):
                 a_, b_ = sym._real(ta), sym._real(tb if op == "sub" else -tb)
                 # Sterbenz: b/2 <= a <= 2b (same sign)  ->  a - b is exact
